@@ -582,3 +582,78 @@ func VerifC16_sec2gmt_verbs_equal_the_functions() {
 	}
 	verifReach("C16/verbs/end")
 }
+
+// reshape wide-to-long then long-to-wide gives back the same records (as a set: long-to-wide emits at
+// end of stream), also when consecutive records carry the same values under DIFFERENT other-field
+// names.
+func VerifC12_reshape_inverse() {
+	var in [][]c12KV
+	for i := 0; i < 2; i++ {
+		other := []string{"id", "name"}[verifChoice("other_field", 2)]
+		r := []c12KV{{other, []string{"1", "2"}[verifChoice("other_value", 2)]}, {"x", []string{"3", "4"}[verifChoice("x", 2)]}}
+		if verifBool("has_y") {
+			r = append(r, c12KV{"y", "5"})
+		}
+		in = append(in, r)
+	}
+	// two records that are identical would be merged by long-to-wide: not an inverse case
+	verifAssume(!(in[0][0].k == in[1][0].k && in[0][0].v == in[1][0].v))
+	long := c12Run(verifVerb("reshape", "-i", "x,y", "-o", "k,v"), in)
+	back := c12Run(verifVerb("reshape", "-s", "k,v"), long)
+	verifAssert(len(back) == len(in), "C12/reshape/inverse-record-count")
+	for _, r := range in {
+		n := 0
+		for _, b := range back {
+			if c12Same(b, r) {
+				n++
+			}
+		}
+		verifAssert(n == 1, "C12/reshape/long-to-wide-inverts-wide-to-long")
+	}
+	verifReach("C12/reshape/end")
+}
+
+// sparsify with a filler (-s) and a field list (-f): exactly the named fields whose value IS the
+// filler are removed (one record; present values are "v", "w" or empty)
+func VerifC12_sparsify_filler_and_field_list() {
+	c12ValueMode = 2
+	in := c12InputsOpt(1, true)
+	c12ValueMode = 0
+	type tc struct {
+		argv []string
+		want func(r []c12KV) []c12KV
+	}
+	cases := []tc{
+		{[]string{"sparsify", "-s", "v"}, func(r []c12KV) []c12KV {
+			var o []c12KV
+			for _, kv := range r {
+				if kv.v != "v" {
+					o = append(o, kv)
+				}
+			}
+			return o
+		}},
+		{[]string{"sparsify", "-s", "v", "-f", "a,c"}, func(r []c12KV) []c12KV {
+			var o []c12KV
+			for _, kv := range r {
+				if !((kv.k == "a" || kv.k == "c") && kv.v == "v") {
+					o = append(o, kv)
+				}
+			}
+			return o
+		}},
+		{[]string{"sparsify", "-f", "a,c"}, func(r []c12KV) []c12KV {
+			var o []c12KV
+			for _, kv := range r {
+				if !((kv.k == "a" || kv.k == "c") && kv.v == "") {
+					o = append(o, kv)
+				}
+			}
+			return o
+		}},
+	}
+	c := cases[verifChoice("argv", len(cases))]
+	out := c12Run(verifVerb(c.argv...), in)
+	verifAssert(len(out) == 1 && c12Same(out[0], c.want(in[0])), "C12/sparsify/only-named-fields-holding-the-filler-are-removed")
+	verifReach("C12/sparsify/end")
+}
